@@ -1,0 +1,8 @@
+// Copyright (c) The Thanos Community Authors.
+// Licensed under the Apache License 2.0.
+
+//go:build !verif
+
+package worker
+
+func (w *Worker) verifPreSelect() {}
